@@ -152,6 +152,18 @@ func (c *Ctx) credOf(cond ssa.Value, pol bool, depth int) []Cred {
 			return c.credOfIntPhi(phi, r.Op, n, depth)
 		}
 	}
+	// (3b) the index found by slices.IndexFunc(list, pred): a non-negative index
+	// means pred returned true for an element
+	if call, _ := CallOf(r.X); call != nil && strings.HasPrefix(Callee(call), "slices.IndexFunc") && len(call.Common().Args) == 2 {
+		if n, ok := ConstInt(r.Y); ok && ((r.Op == token.GEQ && n == 0) || (r.Op == token.GTR && n == -1) || (r.Op == token.NEQ && n == -1)) {
+			if f, _ := c.resolveFuncValue(Arg(call, 1)); f != nil && c.inRepo(f) {
+				if inner := c.boolSummary(f, 0, depth); len(inner) > 0 {
+					return []Cred{{Kind: "via:" + FuncName(f) + ":" + inner[0].Kind, Check: call, Inner: inner}}
+				}
+			}
+		}
+		return nil
+	}
 	// (4) success token: result of a repository function equals a token expression
 	if r.Op == token.EQL {
 		if cs := c.credOfToken(r.X, r.Y, depth); cs != nil {
